@@ -50,6 +50,45 @@ def div_pairs(rng, nl, dl, count):
     return out
 
 
+_MG10_TABLE = [((1 << 19) - 3 * (1 << 8)) // (i + 256) for i in range(256)]      # the seed table as Moeller-Granlund define it
+
+
+def _recip_sim(d, table):
+    """Algorithm 3 of Moeller-Granlund (64-bit reciprocal) with the given seed table, on wrapping 64-bit words."""
+    M = B - 1
+    d0, d9, d40, d63 = d & 1, d >> 55, (1 + (d >> 24)) & M, ((d + 1) & M) >> 1
+    v0 = table[d9 - 256]
+    v1 = ((v0 << 11) - (((v0 * v0 * d40) & M) >> 40) - 1) & M
+    v2 = ((v1 << 13) + (((v1 * (((1 << 60) - v1 * d40) & M)) & M) >> 47)) & M
+    e = (((v2 >> 1) & ((0 - d0) & M)) - v2 * d63) & M
+    v3 = ((((v2 * e) >> 64) >> 1) + (v2 << 31)) & M
+    return (v3 - ((v3 * d + d) >> 64) - d) & M
+
+
+def table_sensitive_divisors(rng, per=2, tries=260):
+    """Divisors for which ONE wrong entry of the 256-entry seed table (off by 1, 2 or 3 either way) changes the reciprocal.
+    The Newton steps absorb such an error for all but a few per cent of the divisors at one end of the entry's row - and
+    there only for some low-bit patterns - so sampling the row does not find them reliably; this search perturbs the table
+    of the published algorithm entry by entry and keeps the divisors whose result moves."""
+    out = []
+    for row in range(256, 512):
+        lo = row << 55
+        for delta in (-3, -2, -1, 1, 2, 3):
+            t = list(_MG10_TABLE)
+            t[row - 256] += delta
+            found = 0
+            for i in range(tries):
+                span = (8, 16, 24, 32, 40, 44, 48)[i % 7]
+                off = rng.getrandbits(span)
+                d = lo + off if (i // 7) % 2 == 0 else lo + (1 << 55) - 1 - off
+                if _recip_sim(d, t) != ((1 << 128) - 1) // d - B:
+                    out.append(d)
+                    found += 1
+                    if found >= per:
+                        break
+    return sorted(set(out))
+
+
 def _recip2_sim(d1, d0):
     """The 3-by-2 reciprocal of Moeller-Granlund (Algorithm 6) on exact integers; returns (third adjustment entered, p, t0)."""
     v = ((1 << 128) - 1) // d1 - B
@@ -178,7 +217,8 @@ def scenarios(tier, rng):
         ds.add(rng.getrandbits(64) | 1 << 63)
         ds.add((rng.getrandbits(64) | 1 << 63 | ((1 << 40) - 1)) & (B - 1))
         ds.add((rng.getrandbits(64) | 1 << 63) & ~((1 << 24) - 1))
-    for d in sorted(ds | band):
+    sens = table_sensitive_divisors(rng, 3 if quick else 6, 700 if quick else 2000)
+    for d in sorted(ds | band | set(sens)):
         sc.append({"g": "kern", "op": "krecip", "d": tobytes(d)})
     d1s = sorted(ds)[:: 12 if quick else 3] + [1 << 63, B - 1]
     for d1 in d1s:
